@@ -9,25 +9,29 @@ BASE_NOTE = ("Trusted: Lean 4.33.0 kernel and the axioms listed per theorem in t
              "lean/N0Verif/Props/{id}.lean; the hand-written model, tied to /repo on every run by the correspondence "
              "streams of harness/props/{lid}.py (differential, seeded by VERIF_SEED); ")
 
-CHECKS = {
-    "C13": dict(
-        category="proof",
-        technique="Lean 4 theorem over a hand-written model + differential correspondence with the implementation",
-        text="Lean theorems C13_roundtrip / C13_roundtrip_writer / C13_field_count: for every non-empty row of fields "
-             "without line breaks, every single-character delimiter other than the quote/CR/LF and every CR/LF line ending, "
-             "parsing the line produced by the library generator or by csv.writer (QUOTE_MINIMAL) returns exactly the row; "
-             "unbounded in row and field length. The model of parse_complex_csv_line is compared with the real function on "
-             "generated and random lines (str and bytes), and the statement itself is executed on the implementation "
-             "(random + exhaustive small scope).",
-        note="csv.writer's quoting decision is modelled (validated by a stream); bytes are modelled as characters 0..255.",
-        design_ref="5/C13",
-    ),
-}
+import importlib
+import sys
+
+sys.path.insert(0, HERE)
+sys.dont_write_bytecode = True
+
+
+def collect():
+    out = {}
+    d = os.path.join(HERE, "harness", "props")
+    for f in sorted(os.listdir(d)):
+        if f.startswith("c") and f.endswith(".py"):
+            mod = importlib.import_module("harness.props." + f[:-3])
+            if hasattr(mod, "MANIFEST"):
+                out[f[:-3].upper()] = mod.MANIFEST
+    return out
+
 
 NOT_YET = {}
 
 
 def main():
+    CHECKS = collect()
     props = [json.loads(l) for l in open(os.path.join(HERE, "properties.jsonl"))]
     checks, na = [], []
     for p in props:
